@@ -45,7 +45,25 @@ type Step struct {
 	Complete bool `json:"complete"`  // completion flag reported by the announcer
 	V1       bool `json:"v1"`        // GET /announce (info hash in body) instead of POST /announce/{infohash}
 	NameOnly bool `json:"name_only"` // old client: digest field absent, only "name"
+	// Before the request is sent: the tracker's clock moves forward by Advance
+	// seconds (the peer store TTL is storeTTL), then the peer store's periodic
+	// cleanup passes run as selected by Cleanup (bit 0: expired entries, bit 1:
+	// expired groups). Both zero = back-to-back announcements (the older cases).
+	Advance int `json:"advance,omitempty"`
+	Cleanup int `json:"cleanup,omitempty"`
 }
+
+// storeTTL is the LocalStore TTL of every case; ttlS the same in seconds.
+const (
+	storeTTL = time.Hour
+	ttlS     = int(storeTTL / time.Second)
+)
+
+// advances are the clock movements a step may carry: most steps none, otherwise
+// a fraction of the TTL (several of them add up), the exact TTL and its two
+// neighbours (LocalStore expires strictly after the TTL), and well beyond it.
+var advances = []int{0, 0, 0, 0, 0, 0, 0, 0, 0, 0, 0, 0,
+	1, ttlS / 3, ttlS / 2, ttlS - 1, ttlS, ttlS + 1, ttlS + 1, 2*ttlS + 5}
 
 // BlobCfg describes what the origin store answers for one blob.
 type BlobCfg struct {
@@ -85,6 +103,8 @@ func genAnnounce(t *rapid.T) Case {
 			Complete: rapid.IntRange(0, 2).Draw(t, "complete") == 2,
 			V1:       rapid.IntRange(0, 3).Draw(t, "v1") == 3,
 			NameOnly: rapid.IntRange(0, 4).Draw(t, "nameonly") == 4,
+			Advance:  rapid.SampledFrom(advances).Draw(t, "advance"),
+			Cleanup:  rapid.SampledFrom([]int{0, 0, 0, 0, 0, 0, 0, 0, 0, 1, 1, 3, 2}).Draw(t, "cleanup"),
 		}
 	}), 0, 12), 1, 10).Draw(t, "steps")
 	for _, ch := range chunks {
@@ -180,6 +200,9 @@ func normalizeAnnounce(c Case) (Case, bool) {
 		if s.Peer < 0 || s.Peer >= c.Agents || s.Blob < 0 || s.Blob >= numBlobs {
 			return c, false
 		}
+		if s.Advance < 0 || s.Advance > 100*ttlS || s.Cleanup < 0 || s.Cleanup > 3 {
+			return c, false
+		}
 	}
 	return c, true
 }
@@ -196,7 +219,7 @@ func runAnnounce(c Case) pbt.Verdict {
 	}
 	clk := clock.NewMock()
 	clk.Set(time.Unix(1600000000, 0))
-	ps := peerstore.NewLocalStore(peerstore.LocalConfig{TTL: time.Hour}, clk)
+	ps := peerstore.NewLocalStore(peerstore.LocalConfig{TTL: storeTTL}, clk)
 	defer ps.Close()
 	fo := &fakeOrigins{byDigest: map[string]BlobCfg{}}
 	for b, bc := range c.Blobs {
@@ -215,10 +238,42 @@ func runAnnounce(c Case) pbt.Verdict {
 	for b := range latest {
 		latest[b] = map[core.PeerID]bool{}
 	}
+	// Evidence only: when every agent last announced a torrent (harness clock), and which
+	// agents have come back to a torrent after a silence longer than the TTL.
+	lastAt := make([]map[core.PeerID]time.Time, numBlobs)
+	returned := make([]map[core.PeerID]bool, numBlobs)
+	for b := range lastAt {
+		lastAt[b] = map[core.PeerID]time.Time{}
+		returned[b] = map[core.PeerID]bool{}
+	}
 	classes := map[string]bool{}
 	var judged, announcerWasKnown, limitBinding, mixedPriorities, withOrigins int
+	var handoutsAfterReturn, handoutsListingReturned int
 
 	for i, s := range c.Steps {
+		if s.Advance > 0 {
+			clk.Add(time.Duration(s.Advance) * time.Second)
+		}
+		if s.Cleanup != 0 {
+			// The passes the store's wall-clock tickers run (every 5 minutes / every hour).
+			expired := false
+			for b := range lastAt {
+				for _, at := range lastAt[b] {
+					if clk.Now().After(at.Add(storeTTL)) {
+						expired = true
+					}
+				}
+			}
+			if expired {
+				classes["cleanup-with-expired-entries"] = true
+			}
+			if s.Cleanup&1 != 0 {
+				ps.VerifCleanupExpiredPeerEntries()
+			}
+			if s.Cleanup&2 != 0 {
+				ps.VerifCleanupExpiredPeerGroups()
+			}
+		}
 		self := agentID(s.Peer)
 		d := blobDigest(s.Blob)
 		ih := blobHash(s.Blob)
@@ -246,6 +301,14 @@ func runAnnounce(c Case) pbt.Verdict {
 		_, known := latest[s.Blob][self]
 		// The announcement is recorded whatever the response is.
 		latest[s.Blob][self] = s.Complete
+		if at, ok := lastAt[s.Blob][self]; ok && clk.Now().After(at.Add(storeTTL)) {
+			returned[s.Blob][self] = true
+			classes["re-announce-after-ttl"] = true
+			if s.Cleanup&1 != 0 {
+				classes["re-announce-after-ttl-and-cleanup"] = true
+			}
+		}
+		lastAt[s.Blob][self] = clk.Now()
 
 		if rec.Code != http.StatusOK {
 			// No hand-out was produced; the statement constrains hand-outs only.
@@ -314,6 +377,15 @@ func runAnnounce(c Case) pbt.Verdict {
 		if agents > limit {
 			return pbt.Fail("hand-out holds %d agents, more than the configured limit %d (%s): %s", agents, limit, where, show(resp.Peers))
 		}
+		if len(returned[s.Blob]) > 0 {
+			handoutsAfterReturn++
+			for id := range seen {
+				if returned[s.Blob][id] {
+					handoutsListingReturned++
+					break
+				}
+			}
+		}
 		// Evidence only.
 		if known {
 			announcerWasKnown++
@@ -344,6 +416,12 @@ func runAnnounce(c Case) pbt.Verdict {
 	}
 	if withOrigins > 0 {
 		classes["with-origins"] = true
+	}
+	if handoutsAfterReturn > 0 {
+		classes["handout-after-a-peer-returned"] = true
+	}
+	if handoutsListingReturned > 0 {
+		classes["handout-lists-returned-peer"] = true
 	}
 	classes["policy-"+c.Policy] = true
 	var cl []string
@@ -557,13 +635,15 @@ func runSort(c SortCase) pbt.Verdict {
 func TestProp(t *testing.T) {
 	pbt.Main(t, pbt.Spec{
 		ID: "C26",
-		Rule: "part announce: 0-120 announce requests (about 30 on average) from 1-18 agents over 2 torrents (drawn completion flag, route v1 GET /announce or v2 POST /announce/{infohash}, digest or name-only body) are served by the real trackerserver handler (drawn announce_limit 0=default|1..16, policy completeness|default, real LocalStore, origin store answering 0-4 origins disjoint from agents or an error); every 200 response is judged against a model holding the latest flag per (torrent, agent): no announcer, no duplicate id, only origins of the blob or agents that announced the torrent, agents <= limit, empty for a complete announcer, and under completeness order seeders<origins<incomplete by the model's flags. " +
+		Rule: "part announce: 0-120 announce requests (about 30 on average) from 1-18 agents over 2 torrents (drawn completion flag, route v1 GET /announce or v2 POST /announce/{infohash}, digest or name-only body; before 40% of the requests the tracker clock advances by 1s, TTL/3, TTL/2, TTL-1s, TTL, TTL+1s or 2*TTL+5s, so agents fall silent for longer than the peer store TTL and announce again, and before 30% the store's expired-entry and/or expired-group cleanup pass runs) are served by the real trackerserver handler (drawn announce_limit 0=default|1..16, policy completeness|default, real LocalStore, origin store answering 0-4 origins disjoint from agents or an error); every 200 response is judged against a model holding the latest flag per (torrent, agent): no announcer, no duplicate id, only origins of the blob or agents that announced the torrent, agents <= limit, empty for a complete announcer, and under completeness order seeders<origins<incomplete by the model's flags. " +
 			"part sortpeers: PriorityPolicy.SortPeers on 0-40 fresh PeerInfo values with distinct ids and a separately allocated source; result must be the given peers minus the source id, ordered by priority. " +
 			"non-trivial (announce) = at least two judged hand-outs for incomplete announcers whose torrent already had another agent; (sortpeers) = source id present in a list of >=3; distinct by case hash; evaluations = judged hand-outs",
 		Assumptions: []string{
 			"origin store replaced by a fake returning origins shaped like the real store's (origin=true, complete=true); origins never announce (origin schedulers use the disabled announce client)",
 			"agent completion truth = the flag of its latest announcement for that torrent",
 			"non-200 announce responses carry no hand-out and are not judged",
+		"the peer store's cleanup passes are invoked through the verif-tagged export of the functions its wall-clock tickers call; the clock is a harness clock",
+		"expired agents may still be handed out (LocalStore.GetPeers documents it); the oracle never requires absence of an agent that once announced the torrent",
 		},
 		Parts: []pbt.Part{
 			pbt.NewPart("announce", 3, genAnnounce, runAnnounce),
